@@ -331,7 +331,7 @@ func (w *World) newMember(id int) *Member {
 func (m *Member) start() {
 	w := m.w
 	m.started = true
-	a := map[string]string{"membership": m.cfg.Dcp.Group.Membership.Type, "mode": m.mode}
+	a := map[string]string{"membership": m.cfg.Dcp.Group.Membership.Type, "mode": m.mode, "group": m.cfg.Dcp.Group.Name}
 	w.jl(&journal.Ev{K: journal.KMember, M: m.id, Vb: -1, A: a})
 	go func() {
 		c := m.cfg
